@@ -23,6 +23,7 @@ from .datatype import get_index_form
 from .calculus import ExteriorDerivative, AdjointExteriorDerivative
 from .calculus import ExteriorProduct
 from .calculus import Hodge
+from .calculus import _is_coeff
 
 
 #==============================================================================
@@ -79,7 +80,7 @@ def infere_type(expr):
 
     elif isinstance(expr, Mul):
         # a constant multiple of a form has the type of that form
-        vectors = [a for a in expr.args if not isinstance(a, _coeffs_registery)]
+        vectors = [a for a in expr.args if not _is_coeff(a)]
         if len(vectors) == 1:
             return infere_type(vectors[0])
 
